@@ -8,7 +8,7 @@
      spec_from        the whole property = judge spec_ok false (what check_case evaluates on gorm's answers)
      hist_known h     h puts the book into one of the five known-finding classes (input only)  *)
 From Verif Require Import Base C17_Model C17_Check C17_Known C17_Proofs C17_Proofs2 C17_Proofs3 C17_Proofs4
-  C17_Plugin5 C17_Exh1 C17_Exh3.
+  C17_Plugin5 C17_Exh1 C17_Exh3 C17_CheckK C17_Wide.
 From Coq Require Import Permutation.
 Open Scope string_scope.
 Open Scope list_scope.
@@ -34,6 +34,14 @@ Print Assumptions c17_compile_exactly_once.
 Theorem c17_history_exactly_once : forall h, judge cl_once true r0 0%N None O h (run h) = true.
 Proof. exact history_exactly_once. Qed.
 Print Assumptions c17_history_exactly_once.
+
+(* ... and without any domain at all: for EVERY history (names registered twice, Replace / Remove of names
+   that are not registered, guards, requests on Replace / Remove) a name counts as registered from a matched
+   Register / Replace of it until a Remove of it, and every nil answer fires each registered name exactly once
+   (C17_CheckK.wide_once, judged on gorm's answers by check_case) *)
+Theorem c17_history_exactly_once_wide : forall h, wide_once [] O h (run h) = true.
+Proof. exact history_exactly_once_wide. Qed.
+Print Assumptions c17_history_exactly_once_wide.
 
 Theorem c17_presort_permutation : forall cs, Permutation (presort cs) cs.
 Proof. exact presort_perm. Qed.
